@@ -1077,8 +1077,10 @@ class XmlDocument(SubXmlBase):
 
         # parse input to set incoming data to related attributes.
         for c in elt:
-            if isinstance(c, (etree._Comment, etree._ProcessingInstruction)):
-                # processing instructions are only here with remove_pis=False
+            if not isinstance(c.tag, string_types):
+                # not an element: a processing instruction (remove_pis=False),
+                # a reference to an entity of the internal subset (entities
+                # are not resolved), a comment
                 continue
 
             key = c.tag.split('}', 1)[-1]
